@@ -1,8 +1,8 @@
-"""C02 - Markovian SIS simulators sample the exact network SIS process (Gillespie_SIS part; see DESIGN for fast_SIS)."""
+"""C02 - Markovian SIS simulators sample the exact network SIS process (Gillespie_SIS part; fast_SIS: see DESIGN)."""
 from . import C01
 
 
 def run(tier, seed):
-    rep, r = C01.run(tier, seed, prop='C02', units=['Gillespie_SIS'])
-    rep.not_covered.append('fast_SIS (_find_next_trans_SIS_Markov / _process_trans_SIS_Markov): see the handler contracts once registered')
+    rep, r = C01.run(tier, seed, prop='C02', units=('Gillespie_SIS',), fast=False)
+    rep.not_covered.append('fast_SIS (_find_next_trans_SIS_Markov / _process_trans_SIS_Markov / _process_rec_SIS_) is not under contract yet')
     return rep, r
